@@ -182,12 +182,12 @@ fn host_component(url: &str, special: bool) -> Option<String> {
     Some(hostport[..cut].to_string())
 }
 
-fn is_ipv4(h: &str) -> bool {
+pub fn is_ipv4(h: &str) -> bool {
     let parts: Vec<&str> = h.split('.').collect();
     parts.len() == 4 && parts.iter().all(|p| !p.is_empty() && p.len() <= 3 && p.chars().all(|c| c.is_ascii_digit()) && p.parse::<u32>().map(|v| v <= 255).unwrap_or(false))
 }
 
-fn is_tame_host(h: &str) -> bool {
+pub fn is_tame_host(h: &str) -> bool {
     !h.is_empty()
         && h.len() < 200
         && !h.ends_with('.')
